@@ -3,23 +3,32 @@ from harness.suites import defaults_examples as de
 
 MANIFEST = dict(
     text='Lean 4 model of the compile-time side (ir_generator._create_struct_field / _populate_field_defaults, data_types.<Type>.check '
-         'and .check_example, the reference-free part of Struct._compute_example_flat_helper / Union._compute_example, '
-         'python_types._generate_python_value) next to the committed model of the Python runtime. Proved for all inputs: a default the '
-         'compile-time check accepts is accepted unchanged by the validator the generated class gets for the field (numbers in float '
-         'positions come back as floats), by validate_type_only for tag defaults (also when the tag is inherited from a parent union), '
-         'and by assignment; reading an unset defaulted field gives the declared default; the compile-time and runtime width tables '
-         '(extracted from both modules by the translator) coincide. The theorem needs two explicit hypotheses that are FALSE of the '
-         'real code and are proved false on concrete witnesses: the compile-time pattern test (re.match: prefix) implies the runtime '
-         'one (whole string), and the type is not Timestamp / Bytes (their defaults stay text). For examples: the flat example '
-         'document of a struct over scalar fields decodes strictly and its wire form is a permutation of the document '
-         '(example_roundtrip_partial); nested references, lists / maps of references, subtypes and unions of structs are covered by '
-         'the direct oracle only. Tied to the code by differential runs (real compiler and real generated classes vs the compiled '
-         'model) on a fixed grid of one-field specs, random struct chains and generated specs; the direct oracle evaluates the '
-         'property on the real artefacts for every defaulted field and every example label.',
+         'and .check_example, the reference-free part of Struct._add_example_helper / _compute_example_flat_helper and of '
+         'Union._add_example / _compute_example, python_types._generate_python_value and the class tables python_types generates) next '
+         'to the committed model of the Python runtime. Proved for all inputs: (default_valid_partial, default_valid_nopattern) a '
+         'default the compile-time check accepts is accepted by the validator the generated class has for the field and comes back '
+         'unchanged (a number in a float position as that float); (default_tag_valid) a tag default is the ready instance of the class '
+         'declaring the tag and passes validate_type_only of the field\'s union validator, also when the tag is inherited; '
+         '(default_read, default_read_generated) an unset defaulted field reads as exactly that value and the generated attribute is '
+         'never nullable; (default_assign_partial) assigning it back is accepted; (default_float_coerced) literal Float fields store a '
+         'float; (default_bounds_agree) compile-time and runtime width tables, both extracted by the translator, coincide; '
+         '(example_roundtrip_partial, example_roundtrip_wire_partial, example_union_roundtrip_partial) the document computed for a '
+         'reference-free example over scalar members decodes strictly (json_compat_obj_decode) and json_compat_obj_encode gives its '
+         'members back. The full statements are FALSE of the code; the excluded cases are proved as witnesses on the model '
+         '(default_pattern_witness: compile-time re.match is a prefix match, the runtime matches the whole string; '
+         'default_timestamp_witness / default_bytes_witness: the default stays text; example_bool_for_int_witness) and re-found on the '
+         'real code by the direct oracle. Tied to the code by differential runs (real compiler, real generated classes, real '
+         'serializer vs the compiled model) on a fixed grid of one-field / one-member specs (types x literals around every bound), '
+         'random struct chains, hand-written seeds and generated specs; the direct oracle evaluates the property itself on the real '
+         'artefacts for every defaulted field and every example label (nested references, lists / maps of references, subtypes, '
+         'unions of structs, inherited fields are covered by the oracle only).',
     note='Trusted: Lean kernel, translator, correspondence generators, CPython re / float() / strptime / base64 as external calls '
-         '(tables computed by the harness with the reference libraries). Not judged: the implicit example of a catch-all tag; specs '
-         'for which python_types cannot produce an importable module for reasons unrelated to defaults (counted). Examples of types '
-         'with members omitted for a caller class are decoded and encoded with every declared caller permission.',
+         '(tables computed by the harness with the reference libraries). Hypotheses the proofs need and the driver evaluates on every '
+         'real environment: unionsAgree / envWF / envWFX. Not judged: the implicit example of a catch-all tag; specs for which '
+         'python_types cannot produce an importable module for reasons unrelated to defaults (counted); key order of example '
+         'documents (JSON objects). Examples of types with members omitted for a caller class are decoded and encoded with every '
+         'declared caller permission. Crash outcomes of the compiler on defaults / examples (C03 territory) are reproduced by the '
+         'model as they are, not judged here.',
     technique='Lean 4 proof + translator-extracted tables + differential correspondence + direct oracle on generated classes',
     design='5 C10')
 
